@@ -32,7 +32,8 @@
    | 9 | operands evaluate left to right; `falls` evaluates the condition first,  | VisitBinaryExpr, TER_FALLS  |
    |   | then only the chosen side; call arguments in parameter declaration order | VisitFuncCall               |
    |10 | assignment evaluates the right-hand side before the index of the target  | VisitAssignStmt             |
-   |11 | Kommazahl -> Zahl/Byte truncates toward zero; Zahl -> Byte keeps the low | fptosi/fptoui/trunc         |
+   |11 | Kommazahl -> Zahl/Byte truncates toward zero and saturates (NaN -> 0); a | fptosi.sat/fptoui.sat/trunc |
+   |   | Zahl shift count for a Byte keeps its low 8 bits; Zahl -> Byte keeps the low |                         |
    |   | 8 bits; Zahl -> Buchstabe keeps the low 32 bits; declaration/assignment  | numericCast in VisitVarDecl |
    |   | between numeric types converts implicitly the same way                   | / VisitAssignStmt           |
    |12 | counting loop: the step is evaluated once before the loop, the end value | VisitForStmt                |
@@ -47,14 +48,13 @@
    |   | empty result, crossed bounds after clamping are a Laufzeitfehler         |                             |
    |15 | Text to Zahl/Kommazahl conversion (strtoll/strtod) is outside the fragment | G_out_of_fragment         |
 
-   GUARDS (outcome [Undefined g]): the language/implementation leaves these cases undefined (LLVM poison,
-   machine trap, C-string artefacts); theorems and the correspondence exclude exactly them:
-     G_mod_zero (x modulo 0), G_mod_overflow (INT64_MIN modulo -1), G_shift_count (count outside
-     [0,width)), G_float_to_int (Kommazahl -> Zahl out of range / NaN / infinite), G_float_to_byte
-     (Kommazahl -> Byte outside [0,255]), G_repeat_negative (Wiederhole with a negative count),
-     G_bad_codepoint (a Buchstabe that is 0, a surrogate or > 0x10FFFF reaches a Text or the output),
-     G_dangling_ref (a Referenz to a list element outlives the element), G_ill_typed (the program is not
-     well typed: no rule applies), G_out_of_fragment. *)
+   GUARDS (outcome [Undefined g]): the language/implementation leaves these cases undefined (C-string artefacts,
+   a loop that runs 2^64 times); theorems and the correspondence exclude exactly them:
+     G_repeat_negative (Wiederhole with a negative count), G_bad_codepoint (a Buchstabe that is 0, a surrogate
+     or > 0x10FFFF reaches a Text or the output), G_dangling_ref (a Referenz to a list element outlives the
+     element), G_ill_typed (the program is not well typed: no rule applies), G_out_of_fragment.
+   No longer guards (defined since 78c0539, c5f1978, 70f7a29): x modulo 0 is a Laufzeitfehler, the smallest Zahl
+   modulo -1 is 0, a shift count outside 0..width-1 gives 0, Kommazahl -> Zahl/Byte saturates (NaN gives 0). *)
 From Coq Require Import ZArith List Bool.
 Import ListNotations.
 From DDP Require Import Lang.Syntax Lang.F64.
@@ -83,8 +83,7 @@ Definition is_numeric_ty (t : ty) : bool :=
   match t with TZahl | TKomma | TByte => true | _ => false end.
 
 Inductive guard : Type :=
-| G_mod_zero | G_mod_overflow | G_shift_count | G_float_to_int | G_float_to_byte | G_repeat_negative
-| G_bad_codepoint | G_dangling_ref | G_ill_typed | G_out_of_fragment.
+| G_repeat_negative | G_bad_codepoint | G_dangling_ref | G_ill_typed | G_out_of_fragment.
 
 (* result of one operator application *)
 Inductive opres : Type :=
@@ -204,28 +203,29 @@ Definition bitop (f : Z -> Z -> Z) (a b : value) : opres :=
   | _, _ => match to_i a, to_i b with Some x, Some y => ROk (VZ (wrap64 (f x y))) | _, _ => ill end
   end.
 
+(* modulo: a zero divisor is a Laufzeitfehler; x modulo -1 is 0 for every Zahl (also the smallest one) *)
 Definition modulo (a b : value) : opres :=
   match a, b with
-  | VB x, VB y => if y =? 0 then RUndef G_mod_zero else ROk (VB (x mod y))
+  | VB x, VB y => if y =? 0 then RErr else ROk (VB (x mod y))
   | _, _ =>
     match to_i a, to_i b with
-    | Some x, Some y =>
-        if y =? 0 then RUndef G_mod_zero
-        else if (x =? min64) && (y =? -1) then RUndef G_mod_overflow
-        else ROk (VZ (Z.rem x y))
+    | Some x, Some y => if y =? 0 then RErr else ROk (VZ (Z.rem x y))
     | _, _ => ill
     end
   end.
 
+(* shifts: the count is converted to the type of the shifted value (a Zahl count for a Byte keeps its low 8 bits);
+   a count outside 0..width-1 moves every bit out: the result is 0 *)
 Definition shift (left : bool) (a b : value) : opres :=
   match to_i b with
   | None => ill
   | Some n =>
     match a with
-    | VZ x => if (n <? 0) || (64 <=? n) then RUndef G_shift_count
+    | VZ x => if (n <? 0) || (64 <=? n) then ROk (VZ 0)
               else ROk (VZ (if left then wrap64 (x * 2 ^ n) else wrap64 ((x mod 2^64) / 2 ^ n)))
-    | VB x => if (n <? 0) || (8 <=? n) then RUndef G_shift_count
-              else ROk (VB (if left then wrap8 (x * 2 ^ n) else x / 2 ^ n))
+    | VB x => let c := match b with VB _ => n | _ => n mod 256 end in
+              if 8 <=? c then ROk (VB 0)
+              else ROk (VB (if left then wrap8 (x * 2 ^ c) else x / 2 ^ c))
     | _ => ill
     end
   end.
@@ -356,9 +356,7 @@ Definition cast_to (t : ty) (v : value) : opres :=
   match t, v with
   | TZahl, VZ z => ROk (VZ z)
   | TZahl, VB z => ROk (VZ z)
-  | TZahl, VK b => match f_trunc b with
-                   | Some z => if (min64 <=? z) && (z <=? max64) then ROk (VZ z) else RUndef G_float_to_int
-                   | None => RUndef G_float_to_int end
+  | TZahl, VK b => ROk (VZ (f_to_Z_sat min64 max64 b))
   | TZahl, VW b => ROk (VZ (if b then 1 else 0))
   | TZahl, VC c => ROk (VZ c)
   | TZahl, VT _ => RUndef G_out_of_fragment
@@ -368,9 +366,7 @@ Definition cast_to (t : ty) (v : value) : opres :=
   | TKomma, VT _ => RUndef G_out_of_fragment
   | TByte, VZ z => ROk (VB (wrap8 z))
   | TByte, VB z => ROk (VB z)
-  | TByte, VK b => match f_trunc b with
-                   | Some z => if (0 <=? z) && (z <=? 255) then ROk (VB z) else RUndef G_float_to_byte
-                   | None => RUndef G_float_to_byte end
+  | TByte, VK b => ROk (VB (f_to_Z_sat 0 255 b))
   | TBool, VZ z => ROk (VW (negb (z =? 0)))
   | TBool, VB z => ROk (VW (negb (z =? 0)))
   | TBool, VW b => ROk (VW b)
